@@ -22,7 +22,7 @@ for d in sorted(glob.glob(os.path.join(V, 'seeded', 'C*-*m*'))):
 seeded = "\n".join(rows)
 p = os.path.join(V, 'DESIGN.md')
 s = open(p).read()
-s = re.sub(r'<!-- BEGIN:findings -->.*?<!-- END:findings -->', '<!-- BEGIN:findings -->\n' + findings + '\n<!-- END:findings -->', s, flags=re.S)
-s = re.sub(r'<!-- BEGIN:seeded -->.*?<!-- END:seeded -->', '<!-- BEGIN:seeded -->\n' + seeded + '\n<!-- END:seeded -->', s, flags=re.S)
+s = re.sub(r'<!-- BEGIN:findings -->.*?<!-- END:findings -->', lambda _m: '<!-- BEGIN:findings -->\n' + findings + '\n<!-- END:findings -->', s, flags=re.S)
+s = re.sub(r'<!-- BEGIN:seeded -->.*?<!-- END:seeded -->', lambda _m: '<!-- BEGIN:seeded -->\n' + seeded + '\n<!-- END:seeded -->', s, flags=re.S)
 open(p, 'w').write(s)
 print("tables regenerated:", len(kf), "findings,", len(rows) - 2, "seeded changes")
